@@ -34,7 +34,19 @@ func isIntType(t string) bool {
 	return strings.HasPrefix(t, "int") || strings.HasPrefix(t, "uint")
 }
 
+// completerBias makes the generators use the Completer type (cc) for string-typed options and positionals
+var completerBias = false
+
 func genOpt(r *rand.Rand, ns *nameSpace, nsPrefix string, allowReq bool) *OptNode {
+	o := genOptRaw(r, ns, nsPrefix, allowReq)
+	if o != nil && completerBias && o.VType == "string" && len(o.Choices) == 0 && !o.Validator && (o.Kind == "scalar" || o.Kind == "slice") && chance(r, 0.6) {
+		o.VType = "cc"
+		o.Init = nil
+	}
+	return o
+}
+
+func genOptRaw(r *rand.Rand, ns *nameSpace, nsPrefix string, allowReq bool) *OptNode {
 	o := &OptNode{}
 	// names, unique within the command (long names compared with their namespace)
 	for tries := 0; tries < 20; tries++ {
@@ -220,7 +232,7 @@ func validValue(r *rand.Rand, o *OptNode) string {
 	vt := o.VType
 	var v string
 	switch {
-	case vt == "string" || vt == "um":
+	case vt == "string" || vt == "um" || vt == "cc":
 		v = pick(r, stringVals[:10])
 		if vt == "um" && strings.HasPrefix(v, "!") {
 			v = "u"
@@ -342,6 +354,9 @@ func genArgs(r *rand.Rand) ([]*ArgNode, bool) {
 	var as []*ArgNode
 	for i := 0; i < n; i++ {
 		a := &ArgNode{Name: pick(r, []string{"src", "dst", "file", "n", "rest", "répertoire"}) + itoa(i), VType: pick(r, []string{"string", "string", "int", "uint8", "um"})}
+		if completerBias && a.VType == "string" && chance(r, 0.6) {
+			a.VType = "cc"
+		}
 		if chance(r, 0.2) {
 			a.Desc = "arg " + a.Name
 		}
